@@ -722,6 +722,177 @@ func lemmaRoundTripConfigError(c *errorCodec, msg *ConfigError, version primitiv
 //@   ensures ErrorMessageLen: result1 == nil ==> len(unbox(result0, *ConfigError).ErrorMessage) == len(msg.ErrorMessage)
 //@   ensures ErrorMessage: result1 == nil ==> forall k int :: 0 <= k && k < len(msg.ErrorMessage) ==> unbox(result0, *ConfigError).ErrorMessage[k] == msg.ErrorMessage[k]
 
+// token-level round trips (several variable-length fields): field equality through the token view of the buffer
+
+func lemmaTokRoundTripPrepare(c *prepareCodec, msg *Prepare, version primitive.ProtocolVersion) (Message, error, bool) {
+	buf := &bytes.Buffer{}
+	if err := c.Encode(msg, buf, version); err != nil {
+		return nil, err, false
+	}
+	decoded, err := c.Decode(buf, version)
+	return decoded, err, true
+}
+
+//@ func lemmaTokRoundTripPrepare
+//@   prop C01
+//@   tokens
+//@   requires fitsQuery: len(msg.Query) <= 2147483647
+//@   requires fitsKeyspace: len(msg.Keyspace) <= 65535
+//@   ensures kind: result1 == nil ==> typeis(result0, *Prepare) && !isnil(unbox(result0, *Prepare))
+//@   ensures Query: result1 == nil ==> unbox(result0, *Prepare).Query == msg.Query
+//@   ensures Keyspace: result1 == nil && version.SupportsPrepareFlags() ==> unbox(result0, *Prepare).Keyspace == msg.Keyspace
+//@   ensures accepted: result2 ==> result1 == nil
+
+func lemmaTokRoundTripUnavailable(c *errorCodec, msg *Unavailable, version primitive.ProtocolVersion) (Message, error, bool) {
+	buf := &bytes.Buffer{}
+	if err := c.Encode(msg, buf, version); err != nil {
+		return nil, err, false
+	}
+	decoded, err := c.Decode(buf, version)
+	return decoded, err, true
+}
+
+//@ func lemmaTokRoundTripUnavailable
+//@   prop C01
+//@   tokens
+//@   expand (*message.errorCodec).Encode, (*message.errorCodec).Decode
+//@   requires fitsErrorMessage: len(msg.ErrorMessage) <= 65535
+//@   ensures kind: result1 == nil ==> typeis(result0, *Unavailable) && !isnil(unbox(result0, *Unavailable))
+//@   ensures ErrorMessage: result1 == nil ==> unbox(result0, *Unavailable).ErrorMessage == msg.ErrorMessage
+//@   ensures Consistency: result1 == nil ==> unbox(result0, *Unavailable).Consistency == msg.Consistency
+//@   ensures Required: result1 == nil ==> unbox(result0, *Unavailable).Required == msg.Required
+//@   ensures Alive: result1 == nil ==> unbox(result0, *Unavailable).Alive == msg.Alive
+//@   ensures accepted: result2 ==> result1 == nil
+
+func lemmaTokRoundTripReadTimeout(c *errorCodec, msg *ReadTimeout, version primitive.ProtocolVersion) (Message, error, bool) {
+	buf := &bytes.Buffer{}
+	if err := c.Encode(msg, buf, version); err != nil {
+		return nil, err, false
+	}
+	decoded, err := c.Decode(buf, version)
+	return decoded, err, true
+}
+
+//@ func lemmaTokRoundTripReadTimeout
+//@   prop C01
+//@   tokens
+//@   expand (*message.errorCodec).Encode, (*message.errorCodec).Decode
+//@   requires fitsErrorMessage: len(msg.ErrorMessage) <= 65535
+//@   ensures kind: result1 == nil ==> typeis(result0, *ReadTimeout) && !isnil(unbox(result0, *ReadTimeout))
+//@   ensures ErrorMessage: result1 == nil ==> unbox(result0, *ReadTimeout).ErrorMessage == msg.ErrorMessage
+//@   ensures Consistency: result1 == nil ==> unbox(result0, *ReadTimeout).Consistency == msg.Consistency
+//@   ensures Received: result1 == nil ==> unbox(result0, *ReadTimeout).Received == msg.Received
+//@   ensures BlockFor: result1 == nil ==> unbox(result0, *ReadTimeout).BlockFor == msg.BlockFor
+//@   ensures DataPresent: result1 == nil ==> unbox(result0, *ReadTimeout).DataPresent == msg.DataPresent
+//@   ensures accepted: result2 ==> result1 == nil
+
+func lemmaTokRoundTripWriteTimeout(c *errorCodec, msg *WriteTimeout, version primitive.ProtocolVersion) (Message, error, bool) {
+	buf := &bytes.Buffer{}
+	if err := c.Encode(msg, buf, version); err != nil {
+		return nil, err, false
+	}
+	decoded, err := c.Decode(buf, version)
+	return decoded, err, true
+}
+
+//@ func lemmaTokRoundTripWriteTimeout
+//@   prop C01
+//@   tokens
+//@   expand (*message.errorCodec).Encode, (*message.errorCodec).Decode
+//@   requires fitsErrorMessage: len(msg.ErrorMessage) <= 65535
+//@   requires fitsWriteType: len(msg.WriteType) <= 65535
+//@   ensures kind: result1 == nil ==> typeis(result0, *WriteTimeout) && !isnil(unbox(result0, *WriteTimeout))
+//@   ensures ErrorMessage: result1 == nil ==> unbox(result0, *WriteTimeout).ErrorMessage == msg.ErrorMessage
+//@   ensures Consistency: result1 == nil ==> unbox(result0, *WriteTimeout).Consistency == msg.Consistency
+//@   ensures Received: result1 == nil ==> unbox(result0, *WriteTimeout).Received == msg.Received
+//@   ensures BlockFor: result1 == nil ==> unbox(result0, *WriteTimeout).BlockFor == msg.BlockFor
+//@   ensures WriteType: result1 == nil ==> unbox(result0, *WriteTimeout).WriteType == msg.WriteType
+//@   ensures Contentions: result1 == nil && version.SupportsWriteTimeoutContentions() && msg.WriteType == primitive.WriteTypeCas ==> unbox(result0, *WriteTimeout).Contentions == msg.Contentions
+//@   ensures accepted: result2 ==> result1 == nil
+
+func lemmaTokRoundTripAlreadyExists(c *errorCodec, msg *AlreadyExists, version primitive.ProtocolVersion) (Message, error, bool) {
+	buf := &bytes.Buffer{}
+	if err := c.Encode(msg, buf, version); err != nil {
+		return nil, err, false
+	}
+	decoded, err := c.Decode(buf, version)
+	return decoded, err, true
+}
+
+//@ func lemmaTokRoundTripAlreadyExists
+//@   prop C01
+//@   tokens
+//@   expand (*message.errorCodec).Encode, (*message.errorCodec).Decode
+//@   requires fitsErrorMessage: len(msg.ErrorMessage) <= 65535
+//@   requires fitsKeyspace: len(msg.Keyspace) <= 65535
+//@   requires fitsTable: len(msg.Table) <= 65535
+//@   ensures kind: result1 == nil ==> typeis(result0, *AlreadyExists) && !isnil(unbox(result0, *AlreadyExists))
+//@   ensures ErrorMessage: result1 == nil ==> unbox(result0, *AlreadyExists).ErrorMessage == msg.ErrorMessage
+//@   ensures Keyspace: result1 == nil ==> unbox(result0, *AlreadyExists).Keyspace == msg.Keyspace
+//@   ensures Table: result1 == nil ==> unbox(result0, *AlreadyExists).Table == msg.Table
+//@   ensures accepted: result2 ==> result1 == nil
+
+func lemmaTokRoundTripUnprepared(c *errorCodec, msg *Unprepared, version primitive.ProtocolVersion) (Message, error, bool) {
+	buf := &bytes.Buffer{}
+	if err := c.Encode(msg, buf, version); err != nil {
+		return nil, err, false
+	}
+	decoded, err := c.Decode(buf, version)
+	return decoded, err, true
+}
+
+//@ func lemmaTokRoundTripUnprepared
+//@   prop C01
+//@   tokens
+//@   expand (*message.errorCodec).Encode, (*message.errorCodec).Decode
+//@   requires fitsErrorMessage: len(msg.ErrorMessage) <= 65535
+//@   requires fitsId: len(msg.Id) <= 65535
+//@   ensures kind: result1 == nil ==> typeis(result0, *Unprepared) && !isnil(unbox(result0, *Unprepared))
+//@   ensures ErrorMessage: result1 == nil ==> unbox(result0, *Unprepared).ErrorMessage == msg.ErrorMessage
+//@   ensures Id: result1 == nil ==> len(unbox(result0, *Unprepared).Id) == len(msg.Id) && same(win(unbox(result0, *Unprepared).Id), win(msg.Id))
+//@   ensures accepted: result2 ==> result1 == nil
+
+func lemmaTokRoundTripFunctionFailure(c *errorCodec, msg *FunctionFailure, version primitive.ProtocolVersion) (Message, error, bool) {
+	buf := &bytes.Buffer{}
+	if err := c.Encode(msg, buf, version); err != nil {
+		return nil, err, false
+	}
+	decoded, err := c.Decode(buf, version)
+	return decoded, err, true
+}
+
+//@ func lemmaTokRoundTripFunctionFailure
+//@   prop C01
+//@   tokens
+//@   expand (*message.errorCodec).Encode, (*message.errorCodec).Decode
+//@   requires fitsErrorMessage: len(msg.ErrorMessage) <= 65535
+//@   requires fitsKeyspace: len(msg.Keyspace) <= 65535
+//@   requires fitsFunction: len(msg.Function) <= 65535
+//@   requires fitsArguments: len(msg.Arguments) <= 65535
+//@   ensures kind: result1 == nil ==> typeis(result0, *FunctionFailure) && !isnil(unbox(result0, *FunctionFailure))
+//@   ensures ErrorMessage: result1 == nil ==> unbox(result0, *FunctionFailure).ErrorMessage == msg.ErrorMessage
+//@   ensures Keyspace: result1 == nil ==> unbox(result0, *FunctionFailure).Keyspace == msg.Keyspace
+//@   ensures Function: result1 == nil ==> unbox(result0, *FunctionFailure).Function == msg.Function
+//@   ensures Arguments: result1 == nil ==> same(valof(unbox(result0, *FunctionFailure).Arguments), valof(msg.Arguments))
+//@   ensures accepted: result2 ==> result1 == nil
+
+func lemmaTokRoundTripStartup(c *startupCodec, msg *Startup, version primitive.ProtocolVersion) (Message, error, bool) {
+	buf := &bytes.Buffer{}
+	if err := c.Encode(msg, buf, version); err != nil {
+		return nil, err, false
+	}
+	decoded, err := c.Decode(buf, version)
+	return decoded, err, true
+}
+
+//@ func lemmaTokRoundTripStartup
+//@   prop C01
+//@   tokens
+//@   requires fitsOptions: len(msg.Options) <= 65535
+//@   ensures kind: result1 == nil ==> typeis(result0, *Startup) && !isnil(unbox(result0, *Startup))
+//@   ensures Options: result1 == nil ==> same(valof(unbox(result0, *Startup).Options), valof(msg.Options))
+//@   ensures accepted: result2 ==> result1 == nil
+
 // decoder half of the length agreement: what Decode consumes is what EncodedLength announces for the decoded message
 
 func lemmaDecodeLenAuthenticate(c *authenticateCodec, source io.Reader, version primitive.ProtocolVersion) (Message, int, error) {
@@ -823,3 +994,56 @@ func lemmaDecodeLenRevise(c *reviseCodec, source io.Reader, version primitive.Pr
 //@   ensures consumed: result2 == nil ==> pos(source) == old(pos(source)) + result1
 
 // <<< generated
+
+// ---- C02, token view: the QUERY/EXECUTE options are written in the order of specification 4.1.4 -
+//   <consistency><flags>[<values>][<result_page_size>][<paging_state>][<serial_consistency>][<timestamp>][<keyspace>][<now_in_seconds>]
+// each optional element present exactly when its field is, so element k is token number 2 + (number of optional
+// elements present before it) of a fresh buffer. A swap of two elements - even one made symmetrically in the decoder -
+// breaks a clause.
+func lemmaLayoutQueryOptions(options *QueryOptions, version primitive.ProtocolVersion) (*bytes.Buffer, error) {
+	dest := &bytes.Buffer{}
+	err := EncodeQueryOptions(options, dest, version)
+	return dest, err
+}
+
+//@ func lemmaLayoutQueryOptions
+//@   prop C02
+//@   tokens
+//@   nilable options
+//@   requires fits: options != nil ==> len(options.PagingState) <= 2147483647 && len(options.Keyspace) <= 65535
+//@   let nValues = ite(options != nil && (!isnil(options.PositionalValues) || !isnil(options.NamedValues)), int(1), int(0))
+//@   let nPage = ite(options != nil && options.PageSize > 0, int(1), int(0))
+//@   let nState = ite(options != nil && !isnil(options.PagingState), int(1), int(0))
+//@   let nSerial = ite(options != nil && options.SerialConsistency != nil, int(1), int(0))
+//@   let nTs = ite(options != nil && options.DefaultTimestamp != nil, int(1), int(0))
+//@   let nKs = ite(options != nil && options.Keyspace != "", int(1), int(0))
+//@   ensures consistency: result1 == nil && options != nil ==> tokkind(result0, 0) == 2 && tokbv(result0, 0) == uint64(options.Consistency)
+//@   ensures flags: result1 == nil && options != nil ==> tokkind(result0, 1) == ite(version.Uses4BytesQueryFlags(), int(3), int(1))
+//@   ensures pagesize: result1 == nil && options != nil && options.PageSize > 0 ==> tokkind(result0, 2 + nValues) == 3 && tokbv(result0, 2 + nValues) == uint64(uint32(options.PageSize))
+//@   ensures pagingstate: result1 == nil && options != nil && !isnil(options.PagingState) && len(options.PagingState) <= 2147483647 ==> tokkind(result0, 2 + nValues + nPage) == 7 && same(tokwin(result0, 2 + nValues + nPage), win(options.PagingState))
+//@   ensures serial: result1 == nil && options != nil && options.SerialConsistency != nil ==> tokkind(result0, 2 + nValues + nPage + nState) == 2 && tokbv(result0, 2 + nValues + nPage + nState) == uint64(*options.SerialConsistency)
+//@   ensures timestamp: result1 == nil && options != nil && options.DefaultTimestamp != nil ==> tokkind(result0, 2 + nValues + nPage + nState + nSerial) == 4 && tokbv(result0, 2 + nValues + nPage + nState + nSerial) == uint64(*options.DefaultTimestamp)
+//@   ensures keyspace: result1 == nil && options != nil && options.Keyspace != "" && len(options.Keyspace) <= 65535 ==> tokkind(result0, 2 + nValues + nPage + nState + nSerial + nTs) == 5 && tokstr(result0, 2 + nValues + nPage + nState + nSerial + nTs) == options.Keyspace
+//@   ensures now: result1 == nil && options != nil && options.NowInSeconds != nil ==> tokkind(result0, 2 + nValues + nPage + nState + nSerial + nTs + nKs) == 3 && tokbv(result0, 2 + nValues + nPage + nState + nSerial + nTs + nKs) == uint64(uint32(*options.NowInSeconds))
+
+// ---- C02, token view: RESULT Rows metadata is
+//   <flags><columns_count>[<paging_state>][<new_metadata_id>][<continuous_page_no>]... (v5 4.2.5.2, DSE v1/v2 8.3)
+func lemmaLayoutRowsMetadata(metadata *RowsMetadata, version primitive.ProtocolVersion) (*bytes.Buffer, error) {
+	dest := &bytes.Buffer{}
+	err := encodeRowsMetadata(metadata, dest, version)
+	return dest, err
+}
+
+//@ func lemmaLayoutRowsMetadata
+//@   prop C02
+//@   tokens
+//@   expand message.encodeRowsMetadata
+//@   requires elems: forall k int :: 0 <= k && k < len(metadata.Columns) ==> metadata.Columns[k] != nil
+//@   requires fits: len(metadata.PagingState) <= 2147483647 && len(metadata.NewResultMetadataId) <= 65535
+//@   let nState = ite(!isnil(metadata.PagingState), int(1), int(0))
+//@   let nId = ite(!isnil(metadata.NewResultMetadataId), int(1), int(0))
+//@   ensures flags: result1 == nil ==> tokkind(result0, 0) == 3
+//@   ensures count: result1 == nil ==> tokkind(result0, 1) == 3 && tokbv(result0, 1) == uint64(uint32(metadata.ColumnCount))
+//@   ensures pagingstate: result1 == nil && !isnil(metadata.PagingState) ==> tokkind(result0, 2) == 7 && same(tokwin(result0, 2), win(metadata.PagingState))
+//@   ensures newid: result1 == nil && !isnil(metadata.NewResultMetadataId) ==> tokkind(result0, 2 + nState) == 8 && same(tokwin(result0, 2 + nState), win(metadata.NewResultMetadataId))
+//@   ensures pageno: result1 == nil && metadata.ContinuousPageNumber > 0 ==> tokkind(result0, 2 + nState + nId) == 3 && tokbv(result0, 2 + nState + nId) == uint64(uint32(metadata.ContinuousPageNumber))
